@@ -495,26 +495,49 @@ def check_meta(run, exe, model, cases, scratch, fixflags="1 1"):
         except W.WalkerTimeout as e:
             run.violation("meta:walker-died", "a walker stopped answering (%s)" % str(e)[:200], {"kind": "meta", "case": c})
             continue
-        # model: one trace per ordered pair (reader, peer)
-        traces = {}
-        qidx = {}
+        # model: the n-walker system of SharedModel.sys_step on the primitive events of the schedule
+        toks = []
+        qidx = {(rr, pp): {} for rr in range(n) for pp in range(n) if rr != pp}
+        nq = 0
+        for k, ev in enumerate(c["events"]):
+            for pr in prims[k]:
+                kind, w = pr[0], pr[1]
+                if kind == "dep":
+                    toks.append("d,%d,%d,%d" % (w, pr[2], pr[3]))
+                elif kind == "flush":
+                    toks.append("v,%d,100000" % w)
+                elif kind == "wstate":
+                    toks.append("w,%d,%d" % (w, pr[2]))
+                elif kind == "setup":
+                    toks.append("u,%d,%d,%d" % (w, pr[2], 1 if pr[3] else 0))
+                elif kind == "share":
+                    toks.append("s,%d" % w)
+                elif kind == "rrestart":
+                    toks.append("r,%d" % w)
+            toks.append("q,%d" % ev[1])
+            for pp in range(n):
+                if pp != ev[1]:
+                    qidx[(ev[1], pp)][k] = nq
+            nq += 1
+        rc, mout, err = V.run_lines(model, ["SYS %d %s" % (n, " ".join(toks))], timeout=600)
+        if rc != 0 or len(mout) != 1:
+            raise V.InfraError("C14 model driver failed: rc=%s %s" % (rc, err[-500:]))
+        segs = [x.strip() for x in mout[0].split(" | ")]
+        mres = {kk: [] for kk in qidx}
         for rr in range(n):
             for pp in range(n):
                 if rr != pp:
-                    traces[(rr, pp)] = []
-                    qidx[(rr, pp)] = {}
-        for k, ev in enumerate(c["events"]):
-            for (rr, pp), tk in traces.items():
-                tk += pair_tokens(prims[k], rr, pp)
-                if rr == ev[1]:
-                    qidx[(rr, pp)][k] = sum(1 for x in tk if x == "q")
-                    tk.append("q")
-        keys = sorted(traces)
-        rc, mout, err = V.run_lines(model, ["META %s %s" % (fixflags, " ".join(traces[kk])) for kk in keys], timeout=600)
-        if rc != 0 or len(mout) != len(keys):
-            raise V.InfraError("C14 model driver failed: rc=%s %s" % (rc, err[-500:]))
-        mres = {kk: parse_model_meta(o) for kk, o in zip(keys, mout)}
-        # record length of the hill records (all the same, or the case is skipped as ambiguous)
+                    mres[(rr, pp)] = [None] * len(segs)
+        for qi, seg in enumerate(segs):
+            for part in seg.split(" ; "):
+                t = part.split()
+                if len(t) < 3 or t[0] != "P":
+                    continue
+                pp = int(t[1])
+                parsed = parse_model_meta("M " + " ".join(t[2:]))[0]
+                for rr in range(n):
+                    if rr != pp and (rr, pp) in mres:
+                        mres[(rr, pp)][qi] = parsed      # filled for every reader; only the querying reader's entry is used
         lens = set(sn["reclen"] for (_, snap, _) in out for sn in snap.values() if sn.get("reclen"))
         if len(lens) > 1:
             run.dist("meta:records-of-different-length")
@@ -544,7 +567,9 @@ def check_meta(run, exe, model, cases, scratch, fixflags="1 1"):
                     continue
                 mid = "w%d" % p
                 mir = d["mirrors"].get(mid)
-                mq = mres[(w, p)][qidx[(w, p)][k]] if qidx[(w, p)].get(k) is not None and qidx[(w, p)][k] < len(mres[(w, p)]) else {"bad": 1}
+                mq = mres[(w, p)][qidx[(w, p)][k]] if qidx[(w, p)].get(k) is not None and qidx[(w, p)][k] < len(mres[(w, p)]) else None
+                if mq is None:
+                    mq = {"bad": 1}
                 Dp = Dafter[k][p]
                 if mir is not None:
                     cont, okint = scen.content(mir, mir.get("grid"), NB)
